@@ -1,7 +1,6 @@
 (* The binary operations of Staircase translated from pba/pbox_abc.py (Gen/GenGlue.v, regenerated on every run) are the operations
-   of Model/PboxArith.v that the theorems of C02, C03, C06, C07 and C12 are about.  (The Frechet product and its helpers are used by the
-   model directly: Model.PboxArith.frechet_mul IS gen_frechet_pbox_mul.) *)
-From Coq Require Import List Bool ZArith.
+   of Model/PboxArith.v that the theorems of C02, C03, C06, C07 and C12 are about.  (functional extensionality is used to transport the induction hypothesis under the local closures of the translated Fixpoint.) *)
+From Coq Require Import List Bool ZArith FunctionalExtensionality.
 From PUN Require Import Base.Num Model.Interval Model.Pbox Model.PboxArith Gen.GenGlue.
 
 Section G.
@@ -17,14 +16,40 @@ Proof.
   unfold gen_sub, psub. cbv zeta. destruct (pneg N steps p_lo p_hi q) as [nq| |]; cbn [rbind]; try reflexivity.
   rewrite gen_add_is_model. destruct d; reflexivity.
 Qed.
+(* the Frechet product and its helpers *)
+Lemma gen_classic_is_model (p q : pb) op : gen_classic_frechet_pbox N steps p_lo p_hi p q op = m_classic_frechet_pbox N steps p_lo p_hi p q op.
+Proof. reflexivity. Qed.
+Lemma gen_naive_is_model (p q : pb) op : gen_vectorised_naive_frechet_pbox N steps p_lo p_hi p q op = m_vectorised_naive_frechet_pbox N steps p_lo p_hi p q op.
+Proof. reflexivity. Qed.
+Lemma gen_nagative_is_model (p q : pb) : gen_nagative_frechet_pbox N steps p_lo p_hi p q = m_nagative_frechet_pbox N steps p_lo p_hi p q.
+Proof. reflexivity. Qed.
+Theorem gen_frechet_pbox_mul_is_model fuel : forall p q : pb, gen_frechet_pbox_mul N steps p_lo p_hi fuel p q = m_frechet_pbox_mul N steps p_lo p_hi fuel p q.
+Proof.
+  induction fuel as [|fuel IH]; intros p q; [reflexivity|]. cbn [gen_frechet_pbox_mul m_frechet_pbox_mul].
+  assert (E : gen_frechet_pbox_mul N steps p_lo p_hi fuel = m_frechet_pbox_mul N steps p_lo p_hi fuel).
+  { apply FunctionalExtensionality.functional_extensionality; intro a. apply FunctionalExtensionality.functional_extensionality; intro b. apply IH. }
+  rewrite E. reflexivity.
+Qed.
+Theorem gen_balchprod_is_model fuel (p q : pb) : gen_balchprod N steps p_lo p_hi fuel p q = m_balchprod N steps p_lo p_hi fuel p q.
+Proof.
+  assert (E : gen_frechet_pbox_mul N steps p_lo p_hi fuel = m_frechet_pbox_mul N steps p_lo p_hi fuel).
+  { apply FunctionalExtensionality.functional_extensionality; intro a. apply FunctionalExtensionality.functional_extensionality; intro b. apply gen_frechet_pbox_mul_is_model. }
+  unfold gen_balchprod, m_balchprod. rewrite E. reflexivity.
+Qed.
+Theorem frechet_mul_is_translated (p q : pb) : frechet_mul N steps p_lo p_hi p q = gen_frechet_pbox_mul N steps p_lo p_hi mul_fuel p q.
+Proof. unfold frechet_mul. symmetry. apply gen_frechet_pbox_mul_is_model. Qed.
 Theorem gen_mul_is_model (p q : pb) d : gen_mul N steps p_lo p_hi mul_fuel p q d = pmul N steps p_lo p_hi d p q.
-Proof. unfold gen_mul, pmul. destruct d; cbn [dep_op]; try reflexivity; match goal with |- context [let '(a, b) := ?k in _] => destruct k end; reflexivity. Qed.
+Proof.
+  unfold gen_mul, pmul. destruct d; cbn [dep_op].
+  - unfold frechet_mul. apply gen_frechet_pbox_mul_is_model.
+  - destruct (perfect_op _ _ _ _ _ _); reflexivity.
+  - destruct (opposite_op _ _ _ _ _ _); reflexivity.
+  - destruct (independent_op _ _ _ _ _ _); reflexivity.
+Qed.
 Theorem gen_div_is_model (p q : pb) d : gen_div N steps p_lo p_hi mul_fuel p q d = pdiv N steps p_lo p_hi d p q.
 Proof.
   unfold gen_div, pdiv, one_over. cbv zeta. change (nofZ N 1%Z) with (@none N).
   destruct (prdiv N steps p_lo p_hi none q) as [rq| |]; cbn [rbind]; try reflexivity.
   rewrite gen_mul_is_model. destruct d; reflexivity.
 Qed.
-Theorem frechet_mul_is_translated (p q : pb) : frechet_mul N steps p_lo p_hi p q = gen_frechet_pbox_mul N steps p_lo p_hi mul_fuel p q.
-Proof. reflexivity. Qed.
 End G.
